@@ -609,6 +609,9 @@ class Formatter:
             else:
                 off_hour, off_minute = tz.split(":")
 
+            if int(off_hour) > 23 or int(off_minute) > 59:
+                raise ValueError("Invalid date")
+
             offset = ((int(off_hour) * 60) + int(off_minute)) * 60
 
             if negative:
